@@ -252,6 +252,7 @@ type carrierCase struct {
 	Name                  string
 	Header, Query, Cookie string // token per carrier ("" = carrier not used)
 	Method                string // "" = the usual one (GET for the upgrade, POST for /smoke-test)
+	Extra                 [][2]string // further request headers (the token gate must not depend on them)
 }
 
 func c15f(clause, trigger, format string, a ...any) *check.Finding {
@@ -281,6 +282,9 @@ func probeAuth(c *check.Ctx, t authTarget, endpoint string, cc carrierCase, st *
 	q := url.Values{}
 	if cc.Query != "" {
 		q.Set("access_token", cc.Query)
+	}
+	for _, kv := range cc.Extra {
+		hdr.Add(kv[0], kv[1])
 	}
 	inner0, err := t.Inner()
 	if err != nil {
@@ -388,6 +392,40 @@ func carrierCases(tokens []tokenCase) []carrierCase {
 			carrierCase{Name: "method-" + m + "/bad-cookie", Method: m, Cookie: bad},
 		)
 	}
+	// the same gate whatever else the request carries: every header name the
+	// deployment knows (hagall-common's constants, what a CDN or proxy in front
+	// of the server adds) with well-formed values, one at a time and all together
+	ambient := [][2]string{
+		{"CloudFront-Viewer-Address", "203.0.113.7:51234"}, {"CloudFront-Viewer-Address", "[2001:db8::1]:443"}, {"CloudFront-Viewer-Country", "SE"},
+		{"CloudFront-Viewer-Time-Zone", "Europe/Stockholm"}, {"X-Forwarded-For", "203.0.113.7, 10.0.0.1"}, {"X-Real-Ip", "203.0.113.7"},
+		{"Forwarded", "for=203.0.113.7;proto=https"}, {"Via", "1.1 abc.cloudfront.net (CloudFront)"}, {"Hagall-Id", "0x1234"}, {"Hagall-Jwt-Secret", bad},
+		{"Hagall-Jwt-Challenge", "abc"}, {"Hagall-Jwt-Challenge-Solution", "def"}, {"Hagall-Registration-State", "registered"},
+		{"posemesh-client-id", "5e5c7a6e-0000-4000-8000-000000000001"}, {"Origin", "https://example.org"}, {"Referer", "https://example.org/app"},
+		{"User-Agent", "verif/1.0"}, {"X-Api-Key", "k"}, {"X-Amz-Cf-Id", "abcdef"}, {"Sec-WebSocket-Protocol", "hagall"},
+	}
+	for _, kv := range ambient {
+		name := "header-" + kv[0] + "=" + kv[1]
+		out = append(out,
+			carrierCase{Name: name + "/none", Extra: [][2]string{kv}},
+			carrierCase{Name: name + "/bad-header", Header: bad, Extra: [][2]string{kv}},
+			carrierCase{Name: name + "/bad-query", Query: bad, Extra: [][2]string{kv}},
+			carrierCase{Name: name + "/bad-cookie", Cookie: bad, Extra: [][2]string{kv}},
+		)
+	}
+	var once [][2]string
+	seen := map[string]bool{}
+	for _, kv := range ambient {
+		if !seen[kv[0]] {
+			seen[kv[0]] = true
+			once = append(once, kv)
+		}
+	}
+	out = append(out,
+		carrierCase{Name: "headers-all/none", Extra: once},
+		carrierCase{Name: "headers-all/bad-header", Header: bad, Extra: once},
+		carrierCase{Name: "headers-all/bad-query", Query: bad, Extra: once},
+		carrierCase{Name: "headers-all/valid-header", Header: valid, Extra: once},
+	)
 	return out
 }
 
@@ -636,7 +674,7 @@ func partAuth(c *check.Ctx, a *acc) {
 			samples = append(samples, map[string]any{"engine": "C15 auth", "token_case": cat[i].Name, "token": short(cat[i].Token)})
 		}
 	}
-	a.add(st.requests, st.carriers, "C15: a valid token and each single mutation of it (signature, header incl. alg none / RS256 / unknown, payload, times an hour off, structure) x three carriers and their combinations, against (a) the real middleware with a harness-owned inner handler and (b) the real binary behind a fake discovery service (unregistered window, registered, after secret rotation), on the relay upgrade and on /smoke-test; oracle: admitted only if a carried token verifies under the harness's own HMAC/claims verifier against the secret currently issued, a single valid token is admitted, and the protected handler is entered iff admitted; a case is distinct by token variant and carrier set", samples...)
+	a.add(st.requests, st.carriers, "C15: a valid token and each single mutation of it (signature, header incl. alg none / RS256 / unknown, payload, times an hour off, structure) x three carriers and their combinations, against (a) the real middleware with a harness-owned inner handler and (b) the real binary behind a fake discovery service (unregistered window, registered, after secret rotation), on the relay upgrade and on /smoke-test; the invalid-token cases again with nine request methods and with twenty ambient request headers (proxy / CDN / deployment header names), one at a time and together; oracle: admitted only if a carried token verifies under the harness's own HMAC/claims verifier against the secret currently issued, a single valid token is admitted, and the protected handler is entered iff admitted; a case is distinct by token variant and carrier set", samples...)
 }
 
 func init() {
